@@ -25,7 +25,14 @@ EXTRA = ["cat <(true) >/dev/null", "v=$(true; false)", "cat <<< x >/dev/null", "
          "{ f0; } < /nonexistent_zz/f", "( f0 ) < /nonexistent_zz/f", "if f0 < /nonexistent_zz/f; then :; fi",
          "while f0 < /nonexistent_zz/f; do :; done", "read x <<< y", "mapfile -t A < /dev/null", "XT=1 eval 'XT=2 f0'",
          "case x in x) f0 < /nonexistent_zz/f ;; esac", "for ((i=0;i<2;i++)); do XT=$i f0; done", "[[ -n x ]] < /nonexistent_zz/f",
-         "(( 1 )) < /nonexistent_zz/f", "f0() { return 3; }", "unset -f fq; fq() { :; }; fq"]
+         "(( 1 )) < /nonexistent_zz/f", "f0() { return 3; }", "unset -f fq; fq() { :; }; fq",
+         # process substitutions as targets of persistent (`exec`) and per-command redirections, opened and closed again
+         # (found missing by seed C18-2)
+         "exec 3< <(echo hi); read l <&3; exec 3<&-", "exec 4> >(cat >/dev/null); echo x >&4; exec 4>&-; wait",
+         "read l < <(echo hi)", "cat <(echo a) <(echo b) >/dev/null",
+         "while read l; do :; done < <(printf 'a\\nb\\n')", "echo x > >(cat >/dev/null); wait", "f0 < <(echo hi)",
+         "{ read l; } < <(echo hi)", "exec 5< <(echo hi) 6< <(echo ho); exec 5<&- 6<&-", "exec 3< <(echo hi); exec 3< <(echo ho); exec 3<&-",
+         "exec 3<&0; exec 3<&-", "exec 3>&1 4>&2; exec 3>&- 4>&-", "exec 3<> /dev/null; exec 3>&-", "exec 7</dev/null 7<&-"]
 DEFS = ('fr() { return 3; } < "/nonexistent_zz/$1"\nfw() { :; } > /nonexistent_zz/d/f\nfok() { :; } < /dev/null\n'
         'SD=${TMPDIR:-/tmp}/c18src.$$; mkdir -p $SD; echo "return 3" > $SD/r; echo nosuchcmd_zz > $SD/n; echo "if then" > $SD/s\n'
         'printf "f0\\nRO=1 true\\n" > $SD/f; printf "true < /nonexistent_zz/f\\nreturn 2\\n" > $SD/d; printf ". $SD/r\\necho no\\n" > $SD/nest\n'
@@ -107,7 +114,12 @@ def run(ctx):
         for key, what in (("scopes", "variable-scope depth"), ("calls", "call-stack depth"), ("fds", "open descriptors")):
             v = kv[key].split(",")
             if len(set(v)) != 1:
-                ctx.violation("%s grows with the number of iterations: %s" % (what, kv[key]), case)
+                if key == "fds" and "exec 4> >(" in body and kv["scopes"].split(",")[0] == kv["scopes"].split(",")[-1]:
+                    # the one recorded leak: each `exec N> >(cmd)` keeps the previous one's pipe (and child) alive
+                    ctx.known_or_violation("exec_output_procsub_chain_holds_descriptors",
+                                           "open descriptors grow with the number of iterations: " + kv[key], case)
+                else:
+                    ctx.violation("%s grows with the number of iterations: %s" % (what, kv[key]), case)
                 break
         else:
             if kv["zombies"].split(",")[-1] != "0" and kv["zombies"].split(",")[-1] > kv["zombies"].split(",")[0]:
